@@ -497,6 +497,15 @@ func RunCrashScenario(sc *Scenario) (vd *Verdict) {
 				fail(v, i)
 				return
 			}
+		case "lookupURI":
+			// a client looks an entity up by its full URI; the namespace may be one the hub has not met yet. Whatever
+			// prefix the hub takes for it from now on has to survive a restart (it is observed after every step)
+			mgmt = true
+			r.Stats["lookups_by_full_uri"]++
+			if _, err := r.H.Store.GetEntity(op.S, nil, true); err != nil {
+				fail(viol("C13", "roundtrip", "lookup-by-uri-rejected:"+uriShape(op.S), "GetEntity(%q) failed: %v", op.S, err), i)
+				return
+			}
 		case "alias":
 			mgmt = true
 			r.Stats["alias_probes"]++
